@@ -477,9 +477,13 @@ def hCompleteWorkflow (c : Cfg) (s : State) (id retry : Nat) : List Txn :=
       [[.setWf status, .mark id] ++ running.map (fun i => .push (.cancelStage i))]
 
 def hCancelWorkflow (c : Cfg) (s : State) (id : Nat) : List Txn :=
-  if s.wfStatus.isComplete then [[.mark id]]
+  let toCancel := (List.range c.n).filter (fun i => !(s.stage i).status.isComplete)
+  if s.wfStatus.isComplete then
+    -- F40: a worker that died between the flag commit and the fan-out commit leaves the message un-acked; the workflow can
+    -- finish before the redelivery, and the stages that never started are still canceled then (no CompleteWorkflow)
+    if s.canceled && !toCancel.isEmpty then [[.mark id] ++ toCancel.map (fun i => .push (.cancelStage i))]
+    else [[.mark id]]
   else
-    let toCancel := (List.range c.n).filter (fun i => !(s.stage i).status.isComplete)
     [[.setCanceled], [.mark id] ++ toCancel.map (fun i => .push (.cancelStage i)) ++ [.push (.completeWorkflow 0)]]
 
 /-- `reset_stage_for_retry` -/
@@ -495,14 +499,14 @@ def hJumpToStage (c : Cfg) (s : State) (id src tgt : Nat) : List Txn :=
   else if tgt ≥ c.n then
     -- target not found: source TERMINAL (+ RUNNING tasks TERMINAL), CompleteStage
     [[.setStage src { source with status := .terminal,
-                                  tasks := source.tasks.map (fun x => if x.status == .running then { x with status := .terminal } else x) },
+                                  tasks := source.tasks.map (fun x => if x.status == .running || x.status == .redirect then { x with status := .terminal } else x) },
       .mark id, .push (.completeStage src)]]
   else
     let count : Int := source.jumpCount.getD 0
     let maxj := Jump.effectiveMax c.wfMaxj sc.maxj
     if !Jump.jumpAccepted count maxj then
       [[.setStage src { source with status := .terminal,
-                                    tasks := source.tasks.map (fun x => if x.status == .running then { x with status := .terminal } else x) },
+                                    tasks := source.tasks.map (fun x => if x.status == .running || x.status == .redirect then { x with status := .terminal } else x) },
         .mark id, .push (.completeStage src)]]
     else
       let g := c.graph
@@ -519,7 +523,7 @@ def hJumpToStage (c : Cfg) (s : State) (id src tgt : Nat) : List Txn :=
         if selfLoop then []
         else if backward then [.setStage src { resetForRetry source with jumpCount := some newCount }]
         else [.setStage src { source with status := .succeeded, jumpCount := some newCount,
-                                          tasks := source.tasks.map (fun x => if x.status == .running then { x with status := .succeeded } else x) }]
+                                          tasks := source.tasks.map (fun x => if x.status == .running || x.status == .redirect then { x with status := .succeeded } else x) }]
       -- the target's context is the copy taken from the full execution BEFORE the transaction
       let target := s.stage tgt
       let tgtCount : Int := max (target.jumpCount.getD 0) newCount     -- never lower the target's own counter
